@@ -10,6 +10,10 @@ def call(mod, pb):
     return mod.solve_norinori(pb["h"], pb["w"], [[tuple(c) for c in b] for b in pb["blocks"]])
 
 
+def ncand(pb):
+    return 2 ** (pb['h'] * pb['w'])
+
+
 def encode(pb):
     return [[pb["h"], pb["w"]], L.flat(L.region_ids(pb["h"], pb["w"], pb["blocks"]))]
 
